@@ -1679,3 +1679,215 @@ func ruleAddNewValLinear(p *Prog, r *Report) {
 	}
 	r.OK(rule, n, c, p.Pos(fn.Pos()), fmt.Sprintf("%d loops, %d nested loops over the path, none from its head", len(headers), nLoops))
 }
+
+// ruleRootExplicitWrap (ROOT.explicit clause, C03/C16): Map.Xml(rootTag) / XmlIndent(..., rootTag) wrap the whole Map in the tag
+// the caller names. At every element-encoder call of these functions whose key argument can come from the optional tag, the value
+// argument is — through conversions and phis only — the receiver: not one of its members, and not something a helper made of it.
+func ruleRootExplicitWrap(p *Prog, r *Report) {
+	const rule = "ROOT.explicit"
+	enc := p.Fn("mxj.marshalMapToXmlIndent")
+	if enc == nil {
+		r.Anchor(rule, "mxj.marshalMapToXmlIndent")
+		return
+	}
+	for _, name := range []string{"mxj.Map.Xml", "mxj.Map.XmlIndent"} {
+		fn := p.Fn(name)
+		if fn == nil || len(fn.Params) < 2 {
+			r.Anchor(rule, name)
+			continue
+		}
+		recv, tags := fn.Params[0], fn.Params[len(fn.Params)-1]
+		n := 0
+		bad := ""
+		for _, in := range instrsByPos(fn) {
+			c, ok := in.(*ssa.Call)
+			if !ok || staticCallee(&c.Call) != enc {
+				continue
+			}
+			var key, val ssa.Value
+			for _, a := range c.Call.Args {
+				if isStringType(a.Type()) && key == nil {
+					key = a
+				}
+				if types.IsInterface(a.Type()) {
+					val = a
+				}
+			}
+			if key == nil || val == nil || !backwardSlice(fn, key)[tags] {
+				continue
+			}
+			n++
+			// closure through conversions and phis only
+			seen := map[ssa.Value]bool{}
+			work := []ssa.Value{val}
+			hasRecv := false
+			for len(work) > 0 {
+				v := work[len(work)-1]
+				work = work[:len(work)-1]
+				if seen[v] {
+					continue
+				}
+				seen[v] = true
+				switch x := v.(type) {
+				case *ssa.Parameter:
+					if x == recv {
+						hasRecv = true
+					}
+				case *ssa.ChangeType:
+					work = append(work, x.X)
+				case *ssa.MakeInterface:
+					work = append(work, x.X)
+				case *ssa.Convert:
+					work = append(work, x.X)
+				case *ssa.Phi:
+					work = append(work, x.Edges...)
+				}
+			}
+			if !hasRecv {
+				bad = p.Pos(c.Pos())
+			}
+		}
+		cn := "the element written under the explicit root tag holds the whole Map"
+		switch {
+		case n == 0:
+			r.Anchor(rule, "element-encoder call of "+name+" under the optional root tag")
+		case bad != "":
+			r.Bad(rule, name, cn, bad, "the value encoded under the caller's root tag at "+bad+" is not the receiver itself (through conversions only): a member, or what a helper selects from the Map, loses the Map's own key as a nesting level")
+		default:
+			r.OK(rule, name, cn, p.Pos(fn.Pos()), fmt.Sprintf("%d element-encoder calls keyed by the optional tag; the value is the receiver", n))
+		}
+	}
+}
+
+// ruleFwdPathSelf (FWD.identity clause, C07/C09): ValuesForPath answers for the path it is given. Every string argument of a
+// module function or of a strings predicate that depends on the path parameter is the parameter itself: no rewritten path is
+// parsed or walked in its place.
+func ruleFwdPathSelf(p *Prog, r *Report) {
+	const rule = "FWD.identity"
+	fn := p.Fn("mxj.Map.ValuesForPath")
+	if fn == nil || len(fn.Params) < 2 {
+		r.Anchor(rule, "mxj.Map.ValuesForPath")
+		return
+	}
+	var path *ssa.Parameter
+	for _, prm := range fn.Params[1:] {
+		if isStringType(prm.Type()) {
+			path = prm
+			break
+		}
+	}
+	if path == nil {
+		r.Anchor(rule, "path parameter of mxj.Map.ValuesForPath")
+		return
+	}
+	n, bad := 0, ""
+	for _, in := range instrsByPos(fn) {
+		c, ok := in.(ssa.CallInstruction)
+		if !ok {
+			continue
+		}
+		h := staticCallee(c.Common())
+		if h == nil || !p.InModule(h) {
+			continue
+		}
+		for _, a := range c.Common().Args {
+			if !isStringType(a.Type()) || !backwardSlice(fn, a)[path] {
+				continue
+			}
+			n++
+			if a != ssa.Value(path) {
+				bad = p.Pos(c.Pos()) + " (" + p.Name(h) + ")"
+			}
+		}
+	}
+	cn := "the path handed on is the path given"
+	switch {
+	case n == 0:
+		r.Anchor(rule, "call of mxj.Map.ValuesForPath that takes the path")
+	case bad != "":
+		r.Bad(rule, p.Name(fn), cn, bad, "a module function is handed a string computed from the path instead of the path itself at "+bad+": the query answers for a rewritten path")
+	default:
+		r.OK(rule, p.Name(fn), cn, p.Pos(fn.Pos()), fmt.Sprintf("%d module calls take the path; each takes the parameter itself", n))
+	}
+}
+
+// ruleLeafOptPass (LEAF.attrfilter clause, C09): the no-attributes option governs the whole walk. Every recursive call of the leaf
+// walker hands on its boolean parameters themselves, not a constant and not a value computed per member.
+func ruleLeafOptPass(p *Prog, r *Report) {
+	const rule = "LEAF.attrfilter"
+	fn := p.Fn("mxj.getLeafNodes")
+	if fn == nil {
+		r.Assume(rule, "mxj.getLeafNodes", "recursion hands the option on", "", "the leaf walker is not found under its name; the clause is not decided on this tree")
+		return
+	}
+	n, bad := 0, ""
+	for _, in := range instrsByPos(fn) {
+		c, ok := in.(*ssa.Call)
+		if !ok || staticCallee(&c.Call) != fn {
+			continue
+		}
+		for i, a := range c.Call.Args {
+			if i >= len(fn.Params) || !isBoolType(fn.Params[i].Type()) {
+				continue
+			}
+			n++
+			if a != ssa.Value(fn.Params[i]) {
+				bad = p.Pos(c.Pos())
+			}
+		}
+	}
+	cn := "recursion hands the option on"
+	switch {
+	case n == 0:
+		r.Assume(rule, p.Name(fn), cn, p.Pos(fn.Pos()), "no recursive call with a boolean parameter; the clause is not decided on this tree")
+	case bad != "":
+		r.Bad(rule, p.Name(fn), cn, bad, "the recursive call at "+bad+" does not pass the walker's own option parameter: below that member the no-attributes option is switched, so its path keeps (or loses) the text-key segment and attribute entries")
+	default:
+		r.OK(rule, p.Name(fn), cn, p.Pos(fn.Pos()), fmt.Sprintf("%d boolean arguments of recursive calls are the parameters themselves", n))
+	}
+}
+
+// ruleWalkDescend (WALK.arms clause, C20/C07): a path walker continues below a value only if that value can be a map or a list. A
+// recursive call at a point where the type-set dataflow knows the walker's node to be neither (the default arm of its type switch)
+// makes a step — a wildcard in particular — match scalars, which the core walker never does.
+func ruleWalkDescend(p *Prog, r *Report, names []string) {
+	const rule = "WALK.arms"
+	for _, name := range names {
+		fn := p.Fn(name)
+		if fn == nil {
+			r.Assume(rule, name, "recursion only below containers", "", "the walker is not found under its name; the clause is not decided on this tree")
+			continue
+		}
+		var node *ssa.Parameter
+		for _, prm := range fn.Params {
+			if types.IsInterface(prm.Type()) {
+				node = prm
+				break
+			}
+		}
+		if node == nil {
+			r.Assume(rule, name, "recursion only below containers", p.Pos(fn.Pos()), "the walker has no interface-typed node parameter; the clause is not decided on this tree")
+			continue
+		}
+		tf := p.typeFlowOf(fn)
+		n, bad := 0, ""
+		for _, in := range instrsByPos(fn) {
+			c, ok := in.(*ssa.Call)
+			if !ok || staticCallee(&c.Call) != fn {
+				continue
+			}
+			n++
+			ts := tf.setAtEntry(node, c.Block())
+			isMap, isList := ts.ts["map[string]interface{}"], ts.ts["[]interface{}"]
+			if (ts.neg && isMap && isList) || (!ts.neg && len(ts.ts) > 0 && !isMap && !isList) {
+				bad = p.Pos(c.Pos()) + " (node: " + ts.String() + ")"
+			}
+		}
+		cn := "recursion only below containers"
+		if bad != "" {
+			r.Bad(rule, name, cn, bad, "the walker calls itself at "+bad+" where its node is known to be neither a map nor a list: a path step matches a scalar there")
+			continue
+		}
+		r.OK(rule, name, cn, p.Pos(fn.Pos()), fmt.Sprintf("%d recursive calls; at none is the node known to be a scalar", n))
+	}
+}
